@@ -276,6 +276,29 @@ def lookupAfter (look : Nat → Rec) (txs : List VTx) (stub : Nat → Rec) : Nat
   else if txs.any (fun q => q.confHashes.contains x) then stub x
   else look x
 
+/-! ### how the conflict record under a hash comes about -/
+
+/-- the conflict-record part of `dao.StoreAsTransaction` (dao.go:963-990) for ONE Conflicts attribute of a
+transaction stored at block `idx` with signers `signers`, applied to what is stored under the named hash:
+a block record is left alone (short path), anything else is replaced by the 5-byte stub carrying THIS
+index, and every signer's record is (re)written with this index; records of other signers stay. -/
+def storeConflict (r : Rec) (idx : Nat) (signers : List Nat) : Rec :=
+  match r with
+  | .block => .block
+  | .stub _ recs => .stub idx (signers.map (fun a => (a, idx)) ++ recs.filter (fun p => !signers.contains p.1))
+  | _ => .stub idx (signers.map (fun a => (a, idx)))
+
+/-- the record under a hash after the conflicting transactions `hist` = [(block index, signers), ...]
+were stored in this order, starting from nothing. -/
+def recordOf (hist : List (Nat × List Nat)) : Rec :=
+  hist.foldl (fun r p => storeConflict r p.1 p.2) .none
+
+/-- the specification `dao.HasTransaction` is meant to implement for a hash that is not a transaction
+on chain: some conflicting transaction that shares a signer with the asking one is inside the
+traceability window. -/
+def conflictInWindow (hist : List (Nat × List Nat)) (signers : List Nat) (height mtb : Nat) : Bool :=
+  hist.any (fun p => isTraceable p.1 height mtb && signers.any (fun a => p.2.contains a))
+
 /-! ### GAS.OnPersist's fee burn -/
 
 /-- GAS.OnPersist (pkg/core/native/native_gas.go:109-117) burns SystemFee + NetworkFee of every
